@@ -482,7 +482,6 @@ theorem sI_P_step (f : Sem) (j : Job) (cl : Cluster) (s s' : Sys) (st : Step)
 
 /-- the "no idle wait" tier of the base system's invariant (any order of delivery) -/
 structure sI_Inv (j : Job) (s : Sys) : Prop where
-  last_notice : sI_W1 j s
   queued_inputs : sI_W2 j s
   issued_pipeline : sI_W3a s
   announced_pipeline : sI_W3b j s
@@ -509,12 +508,12 @@ theorem sI_not_crashed (f : Sem) (j : Job) (cl : Cluster) (wf : WF j cl) (s : Sy
     · exact absurd he h.h2.no_err_ongoing
 
 theorem sI_inv_init (j : Job) (cl : Cluster) : sI_Inv j (Sys.init j cl) :=
-  ⟨sI_W1_init j cl, sI_W2_init j cl, sI_W3a_init j cl, sI_W3b_init j cl, sI_P_init j cl⟩
+  ⟨sI_W2_init j cl, sI_W3a_init j cl, sI_W3b_init j cl, sI_P_init j cl⟩
 
 theorem sI_inv_step (f : Sem) (j : Job) (cl : Cluster) (s s' : Sys) (st : Step) (wf : WF j cl)
     (hA : InvAll f j cl s) (h : sI_Inv j s) (hs : step f j cl s st = some s') (hnc : s'.phase ≠ .crashed) :
     sI_Inv j s' :=
-  ⟨sI_W1_step f j cl s s' st wf hA h.last_notice hs hnc, sI_W2_step f j cl s s' st wf hA h.queued_inputs hs hnc,
+  ⟨sI_W2_step f j cl s s' st wf hA h.queued_inputs hs hnc,
     sI_W3a_step f j cl s s' st wf hA h.issued_pipeline hs hnc, sI_W3b_step f j cl s s' st wf hA h.announced_pipeline hs hnc,
     sI_P_step f j cl s s' st h.phases hs⟩
 
